@@ -194,51 +194,75 @@ def run(ctx):
             ctx.ob('C16.source-text', tok, True)
     ctx.setcount('function_rule_tokens', len(func_tokens))
     ctx.setcount('value_rewriting_tokens', len(M))
-    # tokens_to_string keeps every token value, once, unconditionally, and does not post-process the text
-    tparam = tts.args.args[0].arg
-    loops = [n for n in tts.body if isinstance(n, ast.For) and norm(n.iter) == tparam]
-    ctx.need(len(loops) == 1, 'tokens_to_string: the loop over the token list was not found')
-    lp = loops[0]
-    tv = lp.target.id if isinstance(lp.target, ast.Name) else None
-    appends = [n for n in lp.body if isinstance(n, ast.AugAssign) and isinstance(n.op, ast.Add) and norm(n.value) == f'{tv}.value']
-    ctx.ob('C16.text-is-token-values', 'tokens_to_string:append-each-value', len(appends) == 1 and not any(
-        isinstance(x, (ast.Continue, ast.Break)) for x in ast.walk(lp)),
-           'tokens_to_string does not append every token.value exactly once and unconditionally (tokens can be skipped or '
-           'duplicated in the stored query)', file=UTILS, line=lp.lineno)
-    # accumulators: only += of token values / whitespace strings; the return is the accumulator
-    accs = set()
-    for n in ast.walk(tts):
-        if isinstance(n, ast.AugAssign) and isinstance(n.target, ast.Name):
-            accs.add(n.target.id)
-    rets = [n for n in walk_no_nested(tts) if isinstance(n, ast.Return)]
-    ok = len(rets) == 1 and isinstance(rets[0].value, ast.Name) and rets[0].value.id in accs
-    ctx.ob('C16.text-is-token-values', 'tokens_to_string:return', ok,
-           f'tokens_to_string returns `{norm(rets[0].value) if rets else None}` rather than the text it assembled from the tokens',
-           file=UTILS, line=rets[0].lineno if rets else tts.lineno)
+    # tokens_to_string interpreted (fail-closed AST interpreter) on token lists with known source positions: the text must contain every token value, once,
+    # in order, separated by nothing but white space, and the gaps inside one line must be the source's
+    from ..interp import Interp, Obj, Raised, Env
 
-    def ws(e):
-        """expression that can only be whitespace / a token value / an accumulator"""
-        if isinstance(e, ast.Constant):
-            return isinstance(e.value, str) and e.value.strip() == ''
-        if isinstance(e, ast.BinOp) and isinstance(e.op, ast.Mult):
-            return ws(e.left) or ws(e.right)
-        if isinstance(e, ast.BinOp) and isinstance(e.op, ast.Add):
-            return ws(e.left) and ws(e.right)
-        if isinstance(e, ast.Name):
-            return e.id in accs
-        if isinstance(e, ast.Attribute):
-            return e.attr == 'value'
-        return False
-    for n in ast.walk(tts):
-        if isinstance(n, (ast.Assign, ast.AugAssign)):
-            tg = n.targets[0] if isinstance(n, ast.Assign) else n.target
-            if isinstance(tg, ast.Name) and tg.id in accs:
-                vals = n.value.elts if isinstance(n.value, ast.Tuple) else [n.value]
-                good = all(ws(v) for v in vals)
-                ctx.ob('C16.text-is-token-values', f'tokens_to_string:{norm(n)[:70]}', good,
-                       f'tokens_to_string transforms the assembled text (`{norm(n)[:80]}`): anything other than concatenating token '
-                       f'values and white space can change characters inside a token (e.g. a string literal spanning lines)',
-                       file=UTILS, line=n.lineno, witness="CREATE VIEW v AS (select 'a\\n    b')")
+    from ..lexmodel import master_for
+    _master = master_for(lex)
+
+    def toks(spec):
+        out_ = []
+        for v, ln, ix in spec:
+            try:
+                ts = _master.types(v)
+            except Exception:
+                ts = []
+            out_.append(Obj('Token', type=ts[0] if len(ts) == 1 else 'T', value=v, lineno=ln, index=ix, end=ix + len(v)))
+        return out_
+    source_cases = [
+        ('one line', "select  a ,b", [('select', 1, 0), ('a', 1, 8), (',', 1, 10), ('b', 1, 11)]),
+        ('offset start', "( select 'x  y' )", [('select', 1, 2), ("'x  y'", 1, 9)]),
+        ('two lines', "select a\n   from t", [('select', 1, 0), ('a', 1, 7), ('from', 2, 12), ('t', 2, 17)]),
+        ('string over lines', "select 'l1\n   l2' x", [('select', 1, 0), ("'l1\n   l2'", 1, 7), ('x', 2, 19)]),
+        ('string with a blank line inside', "select 'a\n   \nb' x", [('select', 1, 0), ("'a\n   \nb'", 1, 7), ('x', 3, 16)]),
+        ('three lines, blank between', "a\n\n  b", [('a', 1, 0), ('b', 3, 5)]),
+        ('single token', "x", [('x', 4, 40)]),
+        ('separators and keywords', "retrain p1; Select 1 ;", [('retrain', 1, 0), ('p1', 1, 8), (';', 1, 10), ('Select', 1, 12), ('1', 1, 19), (';', 1, 21)]),
+        ('quotes and specials', "where n = '' and m = 'it''s' -- c", [('where', 1, 0), ('n', 1, 6), ('=', 1, 8), ("''", 1, 10), ('and', 1, 13), ('m', 1, 17), ('=', 1, 19),
+                                                                       ("'it''s'", 1, 21)]),
+    ]
+    ctx.setcount('token_text_probes', len(source_cases))
+    for label, src_text, spec in source_cases:
+        it = Interp({}, {})
+        it.module = tree
+        tl = toks(spec)
+        try:
+            out = it.call_function(tts, [tl], {}, Env())
+        except Raised as r:
+            ctx.ob('C16.text-is-token-values', f'tokens_to_string:{label}', False, f'tokens_to_string raises {r.exc_name} on the token list of `{src_text}`', file=UTILS,
+                   line=tts.lineno)
+            continue
+        ok = isinstance(out, str)
+        rest = out if ok else ''
+        pieces = []
+        if ok:
+            # consume the token values in order; what lies between them must be white space
+            pos = 0
+            for v, _, _ in spec:
+                i = rest.find(v, pos)
+                if i < 0 or rest[pos:i].strip() != '':
+                    ok = False
+                    break
+                pieces.append(rest[pos:i])
+                pos = i + len(v)
+            if ok and rest[pos:].strip() != '':
+                ok = False
+        ctx.ob('C16.text-is-token-values', f'tokens_to_string:{label}', ok,
+               f'tokens_to_string turns the tokens of `{src_text}` into `{out}`: the stored text must consist of every token value, once, in order, with only white '
+               f'space between them (a token skipped, duplicated, re-ordered or edited changes the stored query)', file=UTILS, line=tts.lineno,
+               witness="CREATE VIEW v AS (select 'a\n    b')")
+        if ok:
+            # inside one line the gaps are the source's (token values that contain a newline shift the rest; the statement allows white-space differences
+            # between lines only)
+            same_line_gaps_ok = True
+            for k in range(1, len(spec)):
+                (v0, l0, i0), (v1, l1, i1) = spec[k - 1], spec[k]
+                if l0 == l1 and '\n' not in v0:
+                    if pieces[k] != ' ' * (i1 - (i0 + len(v0))):
+                        same_line_gaps_ok = False
+            ctx.ob('C16.text-is-token-values', f'tokens_to_string:{label}:gaps', same_line_gaps_ok,
+                   f'tokens_to_string does not reproduce the spacing inside a line of `{src_text}` (got `{out}`)', file=UTILS, line=tts.lineno)
     ctx.sample({'raw_query_productions': [str(p) for p in raw_prods if not p.from_star]})
     ctx.sample({'embedding_actions': sorted({p.func.name for p in embed})})
     ctx.floor('raw_query_terminals', 200)
